@@ -77,23 +77,34 @@ def check_record_single(ctx, case, K, R, sc, m, elected_groups, remaining_groups
     return True
 
 
-def check_stv_like(ctx, case, cfg, cands, ballots, states, threshold, label, tbk):
-    """states: list of ElectionState for an STV-family count over (cands, ballots)."""
-    sub = dict(cfg)
-    ref = oracle.stv_ref(sub, cands, ballots)
-    recs = [{"elected": {c for g in s.elected for c in g}, "eliminated": {c for g in s.eliminated for c in g},
-             "scores": dict(s.scores), "remaining": [frozenset(g) for g in s.remaining]} for s in states]
-    probs, info = ref.validate(recs, threshold)
-    if probs or info.get("over_quota"):
-        ctx.count("stv_trace_not_valid_skipped")  # C02 / C01 judge that
-        return True
-    init_fp = scoring.first_place(cands, ballots)
+def plain_of_profile(prof):
+    cands = list(prof.candidates)
+    bl = [(tuple(tuple(g) for g in b.ranking), b.weight, None) for b in prof.ballots if b.ranking]
+    return cands, bl
+
+
+def check_stv_like(ctx, case, cfg, cands, ballots, states, threshold, label, tbk, log=None):
+    """Every tiebreak recorded by an STV-family count is validated LOCALLY, on the observed tallies of the previous round
+    and on the observed input profile of the step that recorded it (rules.STEP_LOG) - not through the reference trace,
+    which a defect in the tie handling itself would invalidate."""
+    by_state = {}
+    for ent in (log or []):
+        # only the steps of the STV-family object itself (a wrapper such as Alaska logs its own outer step with the same new state)
+        if ent[4] is not None and hasattr(ent[0], "threshold"):
+            by_state.setdefault(id(ent[4]), ent)
     for i in range(1, len(states)):
         s = states[i]
         if not s.tiebreaks:
             continue
-        rec = info["per_round"][i - 1]
-        prev = states[i - 1].scores
+        ent = by_state.get(id(s))
+        if ent is None:
+            ctx.count("stv_step_not_observed_skipped")
+            continue
+        obj, pin, prev_state = ent[0], ent[1], ent[2]
+        prev = prev_state.scores
+        T = getattr(obj, "threshold", threshold)
+        init_c, init_b = plain_of_profile(obj._profile)
+        init_fp = scoring.first_place(init_c, init_b)
         for K, R in s.tiebreaks.items():
             ctx.count("tiebreak_records_checked")
             if not valid_resolution(K, R):
@@ -106,13 +117,15 @@ def check_stv_like(ctx, case, cfg, cands, ballots, states, threshold, label, tbk
                          {"round": i, "K": sorted(K), "prev": canon.scores_c(prev)})
                 return False
             v = prev[next(iter(K))]
-            if rec["kind"] == "elim":
+            elim = [c for g in s.eliminated for c in g]
+            el = [c for g in s.elected for c in g]
+            if elim and not el:
                 ctx.count("tb_stv_elim")
                 if v != min(prev.values()) or {c for c in prev if prev[c] == v} != set(K):
                     ctx.fail(f"{label}: elimination tiebreak recorded for a set that is not the lowest tally group", case,
                              {"round": i, "K": sorted(K)})
                     return False
-                if [c for g in s.eliminated for c in g] != [order[-1]]:
+                if elim != [order[-1]]:
                     ctx.fail(f"{label}: eliminated candidate is not the last of the recorded resolution", case,
                              {"round": i, "eliminated": canon.groups(s.eliminated), "resolution": order})
                     return False
@@ -121,35 +134,34 @@ def check_stv_like(ctx, case, cfg, cands, ballots, states, threshold, label, tbk
                     ctx.fail(f"{label}: elimination tie not ordered by initial first-place votes", case,
                              {"round": i, "resolution": order, "initial_fpv": {str(c): str(init_fp[c]) for c in K}})
                     return False
-            elif rec["kind"] == "elect":
+            elif el:
                 ctx.count("tb_stv_elect")
-                if ref.sim:
+                if getattr(obj, "simultaneous", True):
                     ctx.fail(f"{label}: tiebreak recorded in a simultaneous election round", case, {"round": i})
                     return False
-                if v != max(prev.values()) or v < threshold or {c for c in prev if prev[c] == v} != set(K):
+                if v != max(prev.values()) or v < T or {c for c in prev if prev[c] == v} != set(K):
                     ctx.fail(f"{label}: election tiebreak recorded for a set that is not the top tally group at/above quota",
                              case, {"round": i, "K": sorted(K)})
                     return False
-                if [c for g in s.elected for c in g] != [order[0]]:
+                if el != [order[0]]:
                     ctx.fail(f"{label}: elected candidate is not the first of the recorded resolution", case,
                              {"round": i, "elected": canon.groups(s.elected), "resolution": order})
                     return False
                 if tbk in ("borda", "first_place"):
-                    standing = [c for c in cands if c in rec["standing_before"]]
-                    cur = [(tuple((c,) for c in r), w, None) for r, w in rec["ballots_before"].items()]
-                    s2 = ref_scores(tbk, standing, cur)
+                    cur_c, cur_b = plain_of_profile(pin)
+                    s2 = ref_scores(tbk, cur_c, cur_b)
                     ctx.count("score_tiebreak_orders")
                     if not nonincreasing(order, s2):
                         ctx.fail(f"{label}: {tbk} election tiebreak not ordered by that score of the current profile", case,
                                  {"round": i, "resolution": order, "score": {str(c): str(s2[c]) for c in K}})
                         return False
             else:
-                ctx.fail(f"{label}: tiebreak recorded in a default-election round", case, {"round": i})
+                ctx.fail(f"{label}: tiebreak recorded in a round that neither elects nor eliminates", case, {"round": i})
                 return False
     return True
 
 
-def check_outcome(ctx, case, e):
+def check_outcome(ctx, case, e, log=None):
     """(b) and (c) on one finished election; returns number of tiebreak records seen"""
     cfg = case["cfg"]
     rule = cfg["rule"]
@@ -199,7 +211,7 @@ def check_outcome(ctx, case, e):
             if not nonincreasing(order, bs):
                 ctx.fail("CondoBorda: resolution not ordered by Borda score", case, {"R": order, "borda": {str(c): str(bs[c]) for c in K}})
     elif rule in rules.STV_FAMILY:
-        check_stv_like(ctx, case, cfg, cands, ballots, st, e.threshold, rule, tbk)
+        check_stv_like(ctx, case, cfg, cands, ballots, st, e.threshold, rule, tbk, log)
     elif rule in ("TopTwo", "Alaska"):
         m1 = 2 if rule == "TopTwo" else cfg["m_1"]
         fp = scoring.first_place(cands, ballots)
@@ -240,7 +252,7 @@ def check_outcome(ctx, case, e):
                     check_record_single(ctx, case, K, R, fp2, 1, st[2].elected, st[2].remaining, tbk, c2, b2, "TopTwo stage 2")
         else:
             sub = {"rule": "STV", "m": cfg["m_2"], "quota": cfg.get("quota", "droop"), "sim": cfg.get("sim", True)}
-            check_stv_like(ctx, case, sub, c2, b2, [st[1]] + st[2:], _alaska_T(c2, b2, sub), "Alaska stage 2", tbk)
+            check_stv_like(ctx, case, sub, c2, b2, [st[1]] + st[2:], _alaska_T(c2, b2, sub), "Alaska stage 2", tbk, log)
     return ntb
 
 
@@ -251,14 +263,23 @@ def _alaska_T(c2, b2, sub):
 def check_case(ctx, case, max_runs):
     cfg, spec = case["cfg"], case["profile"]
     prof = canon.build_profile(spec)
+    def go():
+        rules.STEP_LOG[0] = []
+        try:
+            o = rules.run(cfg, prof)[0]
+            o.steplog = rules.STEP_LOG[0]
+            return o
+        finally:
+            rules.STEP_LOG[0] = None
+
     script0 = case.get("script")
     if script0 is not None:
         r = rng.Rng("script", script=script0)
         with r:
-            out = rules.run(cfg, prof)[0]
+            out = go()
         runs = [(script0, out, r)]
     else:
-        runs = list(rng.explore(lambda: rules.run(cfg, prof)[0], max_runs=max_runs, raw=True))
+        runs = list(rng.explore(go, max_runs=max_runs, raw=True))
     sigs = []
     for script, out, r in runs:
         c2 = dict(case)
@@ -269,7 +290,7 @@ def check_case(ctx, case, max_runs):
             sigs.append((script, None, None, r.draws))
             continue
         e = out.value
-        ntb = ctx.guard("check_outcome", check_outcome, ctx, c2, e) or 0
+        ntb = ctx.guard("check_outcome", check_outcome, ctx, c2, e, getattr(out, "steplog", None)) or 0
         if r.draws == 0:
             ctx.count("det_runs_no_draws")
             if ntb and cfg.get("tiebreak") == "random" and (
@@ -277,6 +298,23 @@ def check_case(ctx, case, max_runs):
                 ctx.fail(f"{cfg['rule']}: a random tiebreak is recorded but no randomness was consumed", c2, {})
         ctx.case({"cfg": cfg, "profile": spec, "script": script}, nontrivial=ntb > 0 or r.draws == 0)
         sigs.append((script, canon.jhash(canon.outcome_c(e)), ntb, r.draws))
+    # state leaks between elections: when an elimination/election tie was recorded, the same count is run again with two
+    # of the tied candidates' names swapped throughout the profile - the same names are tied again, but every score order
+    # among them is reversed, so a resolution remembered from the first count would now be wrong
+    if script0 is None and not case.get("is_sibling"):
+        for script, out, r in runs[:1]:
+            if out.ok:
+                tied = [K for s_ in out.value.election_states for K in s_.tiebreaks if len(K) >= 2]
+                if tied:
+                    K = sorted(tied[0])
+                    a, b = K[0], K[1]
+                    sw = {a: b, b: a}
+                    sib = {"cands": [sw.get(c, c) for c in spec["cands"]],
+                           "ballots": [dict(bb, r=None if bb.get("r") is None else [[sw.get(c, c) for c in g] for g in bb["r"]],
+                                            **({"s": {sw.get(c, c): v for c, v in bb["s"].items()}} if bb.get("s") else {}))
+                                       for bb in spec["ballots"]]}
+                    ctx.count("swapped_name_siblings")
+                    check_case(ctx, {"cfg": cfg, "profile": sib, "tag": "sibling", "is_sibling": True}, max_runs)
     oks = [s for s in sigs if s[1] is not None]
     if len(oks) > 1:
         ctx.count("script_groups_compared")
@@ -293,8 +331,19 @@ def check_case(ctx, case, max_runs):
         ctx.count("mixed_exception_result_groups")
 
 
+RULE_CYCLE = NONRANDOM + ["STV", "STV", "IRV", "SequentialRCV", "Alaska"]  # multi-round counts carry most of the tie logic
+
+
+def plain_names(spec):
+    """rename the candidates to A, B, C ...: many counts in one process then tie the same names, which exposes anything
+    remembered between elections"""
+    pi = {c: gen.PLAIN[i] for i, c in enumerate(spec["cands"])}
+    return {"cands": [pi[c] for c in spec["cands"]],
+            "ballots": [dict(b, r=None if b.get("r") is None else [[pi[c] for c in g] for g in b["r"]]) for b in spec["ballots"]]}
+
+
 def gen_case(rnd, i, maxn):
-    rule = NONRANDOM[i % len(NONRANDOM)]
+    rule = RULE_CYCLE[i % len(RULE_CYCLE)]
     if rule in rules.SCORE_RULES:
         c = cases.score_case(rnd, rule)
     else:
@@ -308,6 +357,8 @@ def gen_case(rnd, i, maxn):
             c = cases.ranking_case(rnd, rule, maxn=maxn if rule not in rules.PAIRWISE else min(maxn, 6))
     if c["cfg"].get("transfer") == "random":
         c["cfg"]["transfer"] = "fractional"
+    if rule in rules.STV_FAMILY + ("Alaska",) and len(c["profile"]["cands"]) <= len(gen.PLAIN) and rnd.random() < 0.7:
+        c["profile"] = plain_names(c["profile"])
     if "tiebreak" in c["cfg"] and rule not in rules.SCORE_RULES:
         c["cfg"]["tiebreak"] = rnd.choice([None, "random", "random", "borda", "first_place"])
     return c
